@@ -3,6 +3,9 @@ C06 line-protocol driver.
   host   <entries> <r.Host>                 Provision + MatchHost           → ood | err:dup | m:0 | m:1
   path   <patterns> <URL.Path> <EscapedPath> Provision + MatchPath          → ood | bad-op | m:0 | m:1
   pathre <full|pre|sub> <lit> <URL.Path>    MatchPathRE with ^lit$ / ^lit / lit → ood | m:0 | m:1
+  pathpair <case|slash|pct> <patterns> <Path1> <Esc1> <Path2> <Esc2>
+                                            two spellings of one request (differing only by letter case /
+                                            by runs of slashes / by percent-encoding)  → ood | bad-op | m:x m:y
 Lists: `.` = empty list, else hex items joined by `,` (`-` = empty string).
 `ood` = outside the correspondence domain (see `inDomain…`): the model treats
 `strings.ToLower`/`EqualFold`/rune iteration as ASCII operations and `idna.ToASCII` /
@@ -49,7 +52,7 @@ def reLitOk (s : Bytes) : Bool :=
 
 def largeThreshold : Nat := 100
 
-def handle : List String → String
+def handleSingle : List String → String
   | ["host", entries, rhost] =>
     match parseList entries, Hex.decode rhost with
     | some l, some h =>
@@ -73,7 +76,58 @@ def handle : List String → String
     | _, _, _ => "bad-op"
   | _ => "bad-op"
 
+/-- merge every run of slashes into one slash -/
+def squeeze : Bytes → Bytes
+  | [] => []
+  | [x] => [x]
+  | x :: y :: rest => if x = cSlash ∧ y = cSlash then squeeze (y :: rest) else x :: squeeze (y :: rest)
+
+/-- the relation a `pathpair` line claims between its two spellings -/
+def pairRelated (kind : String) (p1 e1 p2 e2 : Bytes) : Option Bool :=
+  match kind with
+  | "case" => some (lower p1 == lower p2 && lower e1 == lower e2)
+  | "slash" => some (squeeze p1 == squeeze p2 && squeeze e1 == squeeze e2)
+  | "pct" => some (p1 == p2)
+  | _ => none
+
+def handlePair (kind : String) (l : List Bytes) (p1 e1 p2 e2 : Bytes) : String :=
+  if !(inDomainPath l p1 e1 && inDomainPath l p2 e2) then "ood"
+  else if !(escConsistent p1 e1 && escConsistent p2 e2) then "bad-op"
+  else match pairRelated kind p1 e1 p2 e2 with
+    | some true => showBool (pathCase l p1 e1) ++ " " ++ showBool (pathCase l p2 e2)
+    | _ => "bad-op"
+
+def handle : List String → String
+  | ["pathpair", kind, pats, p1, e1, p2, e2] =>
+    match parseList pats, Hex.decode p1, Hex.decode e1, Hex.decode p2, Hex.decode e2 with
+    | some l, some p1, some e1, some p2, some e2 => handlePair kind l p1 e1 p2 e2
+    | _, _, _, _, _ => "bad-op"
+  | other => handleSingle other
+
+/-! ### the counter-examples proved in `Witness.lean` -/
+
+structure PathPair where
+  kind : String
+  pats : List Bytes
+  p1 : Bytes
+  e1 : Bytes
+  p2 : Bytes
+  e2 : Bytes
+
+/-- pattern `/a%2fb`: `/a%2fb` matches, `/A%2fb` does not -/
+def wCasePct : PathPair := ⟨"case", [[47, 97, 37, 50, 102, 98]], [47, 97, 47, 98], [47, 97, 37, 50, 102, 98], [47, 65, 47, 98], [47, 65, 37, 50, 102, 98]⟩
+/-- pattern `/a//b`: `/a//b` matches, `/a/b` does not -/
+def wDupSlash : PathPair := ⟨"slash", [[47, 97, 47, 47, 98]], [47, 97, 47, 47, 98], [47, 97, 47, 47, 98], [47, 97, 47, 98], [47, 97, 47, 98]⟩
+/-- pattern `/%61`: target `/%61` matches, target `/a` does not -/
+def wPctEnc : PathPair := ⟨"pct", [[47, 37, 54, 49]], [47, 97], [47, 37, 54, 49], [47, 97], [47, 97]⟩
+
+def encodeList (l : List Bytes) : String :=
+  if l.isEmpty then "." else ",".intercalate (l.map Hex.encode)
+
+def PathPair.line (w : PathPair) : String :=
+  " ".intercalate ["C06", "pathpair", w.kind, encodeList w.pats, Hex.encode w.p1, Hex.encode w.e1, Hex.encode w.p2, Hex.encode w.e2]
+
 /-- counter-example lines replayed on the implementation on every run (see Witness.lean) -/
-def witnessLines : List String := []
+def witnessLines : List String := [wCasePct.line, wDupSlash.line, wPctEnc.line]
 
 end CaddyModel.C06
